@@ -12,7 +12,7 @@ from gen.util import SECP_N, short
 DRIVERS = ['C06']
 NEEDS = dict(cli=True, harness=True, shim=False, release=True)
 RULE = ("CLI `sign transaction` on legacy / EIP-2930 / EIP-1559 documents x chain ids {absent, null, 0, 1, 137, 2^32, 2^64-1, 2^64, "
-        "(2^256-37)/2, that+1, 2^255, 2^256-1} x --allow-missing-relay-protection x --signature-only x account indices (both "
+        "(2^256-37)/2, that+1, 2^255, 2^256-1, and k*2^(w-1)-18 / -17 for w = 32..224 where 2c+35+parity carries across bit w} x --allow-missing-relay-protection x --signature-only x account indices (both "
         "parities counted); exit status, exact stdout vs the model given the produced signature, v = 35+2c+parity as an integer, "
         "signer recovery, and cross-chain check (the signature does not recover the signer under another chain id); release "
         "build as well in the thorough tier; a case is distinct by (document, flags, account)")
@@ -51,6 +51,24 @@ def run(ctx):
     if not thorough:
         keep = [c for c in cases if c["kind"] == 0 or rng.random() < 0.5]
         cases = keep
+    # chain ids at which v = 2c + 35 + parity sits on a limb boundary (2c+35 = 2^w - 1, so that adding parity 1 carries across
+    # bit w): full output, several accounts and nonces each so that both parities are met at every boundary
+    carry = []
+    for w in (32, 64, 96, 128, 160, 192, 224):
+        half = 1 << (w - 1)
+        ks = [1, 2, 3] if w in (64, 128) else [1]
+        if w <= 128:
+            ks.append(2 * rng.randrange(1, 1 << 60) + 1)
+        for k in ks:
+            for d in (-18, -17) if w in (64, 128) else (-18,):
+                if 0 <= k * half + d <= LMAX:
+                    carry.append(k * half + d)
+    for cid in carry:
+        for a in range(4 if not thorough else 8):
+            t = txgen.rand_tx(rng, kind=0, chain=cid, small=True)
+            doc = json.loads(txgen.render(rng, t, extra_keys=False))
+            doc["chainId"] = str(cid) if rng.random() < 0.5 else hex(cid)
+            cases.append(dict(t=t, doc=json.dumps(doc), c=cid, kind=0, allow=False, sigonly=False, account=a % 4))
     runs = []
     for i, c in enumerate(cases):
         p = os.path.join(tmp, "tx%d.json" % i)
